@@ -64,25 +64,32 @@ end
 def ftextDs (d : FDataset) : Text :=
   d.kw ++ gap d.gs 0 ++ '{' :: gap d.gs 1 ++ ftextL d.kids ++ fcloseText d.gs 2 d.name
 
-/-! ### the declared structure -/
+/-! ### the declared structure
+
+Names are spelled raw in a foreign text (any character but `;` and `[`, not starting with white space); the structure
+the text declares carries them the way every pydap object carries a name: quoted (`_quote`, the identity on names that
+are already made of `name_regexp` characters). -/
 
 def declTy (ty : Text) : Text :=
   match lookup Gen.LOWER_DAP2_TO_NUMPY_PARSER_TYPEMAP (lower ty) with
   | some d => d
   | none => []
 
-def declBase (b : FBase) : BaseV := ⟨b.name, declTy b.ty, b.dims.map (·.2), b.dims.filterMap (·.1), true⟩
+/-- a declaration naming all of its dimensions carries the names; one naming only some of them (`Int32 a[x = 2][3]`)
+    declares its shape, and — a tuple of names cannot say which axes they name — no dimension names (`fitDims`) -/
+def declBase (b : FBase) : BaseV :=
+  ⟨quoteName b.name, declTy b.ty, b.dims.map (·.2), fitDims (b.dims.map (·.2)) (b.dims.filterMap (·.1)), true⟩
 
 mutual
 def declT : FTmpl → Tmpl
   | .base b => .base (declBase b)
-  | .cont isSeq _ name _ kids => if isSeq then .seq name (declL kids) else .struct name (declL kids)
-  | .grid _ _ _ name _ arr maps => .grid name (declBase arr :: maps.map declBase)
+  | .cont isSeq _ name _ kids => if isSeq then .seq (quoteName name) (declL kids) else .struct (quoteName name) (declL kids)
+  | .grid _ _ _ name _ arr maps => .grid (quoteName name) (declBase arr :: maps.map declBase)
 def declL : List FTmpl → List Tmpl
   | [] => []
   | t :: ts => declT t :: declL ts
 end
 
-def declDs (d : FDataset) : Dataset := ⟨d.name, declL d.kids⟩
+def declDs (d : FDataset) : Dataset := ⟨quoteName d.name, declL d.kids⟩
 
 end Pydap.Dds
